@@ -519,3 +519,92 @@ def callable_cfg(repo: Repo, fi: FuncInfo, e: ast.AST):
         ast.fix_missing_locations(fn)
         return build(fn)
     return None
+
+
+# ---------------------------------------------------------------------------
+# nullness correlation for path-sensitive typestates
+#
+# Refactorings hoist code out of branches and re-test a local instead (`getter = None ... if getter is not None:`).
+# explore() forks on every test; without knowing that `getter` is None exactly on the paths that did not pop, the
+# infeasible combinations look like violations.  This wrapper carries, next to the rule's own abstract value, what is
+# known about locals that were bound to None or to an element taken from a waiter container, and prunes the branches
+# of `x is None` / `x is not None` / `x` / `not x` tests that contradict it.
+
+NONNULL_TAKERS = {"popleft", "pop", "popitem", "heappop"}
+
+
+def _binding_kind(value: ast.AST) -> Optional[str]:
+    if isinstance(value, ast.Constant) and value.value is None:
+        return "none"
+    if isinstance(value, ast.Call):
+        nm = q.call_attr(value)
+        if nm in NONNULL_TAKERS:
+            return "obj"  # assumption: the waiter containers hold future objects / (item, future) entries, never None
+        if nm in ("Future", "_create_future", "create_future"):
+            return "obj"
+    return None
+
+
+def with_nullness(init, transfer, edge_transfer=None):
+    """Returns (init', transfer', edge') to hand to explore()/exit_states(); the rule's value is ``v[0]``."""
+
+    def tr(nd, v):
+        val, known = v
+        res = transfer(nd, val)
+        if res is None:
+            return None
+        if nd.kind == "stmt" and isinstance(nd.ast, (ast.Assign, ast.AnnAssign)) and getattr(nd.ast, "value", None) is not None:
+            tgs = nd.ast.targets if isinstance(nd.ast, ast.Assign) else [nd.ast.target]
+            k = dict(known)
+            for t in tgs:
+                if isinstance(t, ast.Name):
+                    kind = _binding_kind(nd.ast.value)
+                    if kind is None and isinstance(nd.ast.value, ast.Name) and nd.ast.value.id in k:
+                        kind = k[nd.ast.value.id]
+                    if kind is None:
+                        k.pop(t.id, None)
+                    else:
+                        k[t.id] = kind
+                elif isinstance(t, (ast.Tuple, ast.List)):
+                    for e in t.elts:
+                        if isinstance(e, ast.Name):
+                            k.pop(e.id, None)
+            known = frozenset(k.items())
+        elif nd.kind == "for":
+            k = dict(known)
+            for e in ast.walk(nd.ast.target):
+                if isinstance(e, ast.Name):
+                    k.pop(e.id, None)
+            known = frozenset(k.items())
+        if isinstance(res, list):
+            return [(r, known) for r in res]
+        return (res, known)
+
+    def ed(nd, kind, v):
+        val, known = v
+        if nd.kind == "test" and kind in ("true", "false"):
+            t, pol = canon_fact(nd.ast, kind == "true")
+            k = dict(known)
+            name = None
+            isnone = None
+            if t.endswith(" is None") and t[:-8].isidentifier():
+                name, isnone = t[:-8], pol
+            elif t.isidentifier():
+                name, isnone = t, (False if pol else None)  # truthy => not None; falsy says nothing certain about objects...
+                if not pol and k.get(t) == "obj":
+                    isnone = None
+                if not pol and k.get(t) == "none":
+                    isnone = True
+            if name is not None and name in k and isnone is not None:
+                if (k[name] == "none") != isnone:
+                    return None
+            if name is not None and t.isidentifier() and not pol and k.get(name) == "obj":
+                # `if not x` on a future object taken from the container: futures are truthy
+                return None
+        if edge_transfer is not None:
+            val = edge_transfer(nd, kind, val)
+            if val is None:
+                return None
+        return (val, known)
+
+    return (init, frozenset()), tr, ed
